@@ -66,8 +66,7 @@ fn compile_entry(
         type_id: callable,
     });
     let bc = program.to_bytecode(Some(f));
-    let (value, executor) =
-        quiver_core::execute_bytecode_sync(bc, builtins, false).map_err(|e| format!("toplevel: {}", err_class(&e)))?;
+    let (value, executor) = sync_exec(bc, builtins).map_err(|e| format!("toplevel: {e}"))?;
     match value {
         Value::Function(idx, caps) => {
             if caps.is_empty() {
@@ -81,15 +80,76 @@ fn compile_entry(
     }
 }
 
+/// `execute_bytecode_sync` with a step bound; a program that needs the runtime (spawn, send,
+/// select, effects) is reported as such instead of spinning.
+fn sync_exec(
+    bytecode: Bytecode,
+    builtins: &BuiltinRegistry<E>,
+) -> Result<(Value, quiver_core::executor::Executor<E>), String> {
+    use quiver_core::compatibility::{
+        CompatibilityInput, compute_canonical_tuples, compute_param_compatibility, compute_type_compatibility,
+    };
+    let entry = bytecode.entry.ok_or("no entry")?;
+    let mut executor = quiver_core::executor::Executor::new(builtins.clone(), false, 0);
+    let input = CompatibilityInput {
+        types: &bytecode.types,
+        tuples: &bytecode.tuples,
+        functions: &bytecode.functions,
+        builtins: &bytecode.builtins,
+        resource_names: &bytecode.resources,
+    };
+    let type_compatibility = compute_type_compatibility(&input);
+    let canonical_tuples = compute_canonical_tuples(&bytecode.tuples);
+    let (function_param_compatibility, builtin_param_compatibility) = compute_param_compatibility(&input);
+    executor.update_program(quiver_core::executor::ProgramUpdate {
+        constants: bytecode.constants,
+        functions: bytecode.functions,
+        tuples: bytecode.tuples[2..].to_vec(),
+        types: bytecode.types,
+        builtins: bytecode.builtins,
+        resources: bytecode.resources,
+        type_compatibility,
+        function_param_compatibility,
+        builtin_param_compatibility,
+        canonical_tuples,
+    });
+    executor
+        .spawn_process(0, Some(entry), vec![], Value::nil(), vec![], false)
+        .map_err(|e| err_class(&e))?;
+    for _ in 0..200_000 {
+        let (_did, action) = executor.step(1000, 0);
+        if action.is_some() {
+            return Err("needs_runtime".into());
+        }
+        let process = executor.get_process(0).ok_or("process disappeared")?;
+        if let Some(result) = &process.result {
+            return match result {
+                Ok(v) => {
+                    let v = v.clone();
+                    if let Err(e) = executor.check_refcounts() {
+                        return Err(format!("refcount:{e}"));
+                    }
+                    Ok((v, executor))
+                }
+                Err(e) => Err(format!("error:{}", err_class(e))),
+            };
+        }
+    }
+    Err("budget".into())
+}
+
 fn run_sync(bc: Bytecode, builtins: &BuiltinRegistry<E>) -> J {
     let tables = bc.clone();
-    let r = catch_unwind(AssertUnwindSafe(|| quiver_core::execute_bytecode_sync(bc, builtins, false)));
+    let r = catch_unwind(AssertUnwindSafe(|| sync_exec(bc, builtins)));
     match r {
         Ok(Ok((v, ex))) => match ex.extract_heap_data(&v) {
             Ok((v2, heap)) => json!({"t": "value", "v": pv(&tables, &heap, &v2)}),
             Err(e) => json!({"t": "error", "e": err_class(&e)}),
         },
-        Ok(Err(e)) => json!({"t": "error", "e": err_class(&e)}),
+        Ok(Err(m)) => match m.strip_prefix("error:") {
+            Some(e) => json!({"t": "error", "e": e}),
+            None => json!({"t": m}),
+        },
         Err(_) => json!({"t": "crash"}),
     }
 }
